@@ -24,8 +24,10 @@ from . import sched as S
 from .core import derive, jhash
 
 VERIF = os.path.dirname(os.path.dirname(os.path.abspath(__file__)))
-EVIDENCE_DIR = os.path.join(VERIF, "evidence")
-REPLAY_DIR = os.path.join(VERIF, "replays")
+# DST_OUT_DIR: evidence and replays of trial runs against patched scratch copies go elsewhere (tools/try_patch.sh)
+_OUT = os.environ.get("DST_OUT_DIR") or VERIF
+EVIDENCE_DIR = os.path.join(_OUT, "evidence")
+REPLAY_DIR = os.path.join(_OUT, "replays")
 KNOWN = os.path.join(VERIF, "known_findings.json")
 
 RUN_WATCHDOG_S = 600
